@@ -91,7 +91,10 @@ fn clip_pieces(fl: &Flat, t: &[usize; 3]) -> (usize, bool) {
             })
             .collect();
         let a = crate::geo::tri_area2(&[s[0], s[1], s[2]]).abs();
-        if !(a > 1e-4) {
+        // the library's own f32 cross product on coordinates up to 40 px has
+        // an error of a few 1e-4 px²: below 2e-3 px² the on-screen winding of
+        // a piece is not well defined
+        if !(a > 2e-3) {
             degenerate = true;
         }
     }
@@ -121,7 +124,10 @@ fn masks_case(rng: &mut Rng, rep: &mut Report, idx: u64) {
     rep.case(h.get(), total_cov > 0);
     // prior depth: mostly a constant, sometimes exactly a layer's value so
     // that the Equal predicate has something to pass
-    let pz0 = rng.pick(&[0.0f32, 0.3, 0.8, 2.0]);
+    // incl. the library's own depth_clear default (+inf), −inf, −0.0 and a
+    // huge negative value: rewrites of the predicate differ only there
+    let pz0 = rng.pick(&[0.0f32, 0.3, 0.8, 2.0, 0.0, 0.3, 0.8, 2.0, f32::INFINITY, f32::NEG_INFINITY, -0.0, -1e30]);
+    rep.count(if pz0.is_infinite() || pz0 < 0.0 || (pz0 == 0.0 && pz0.is_sign_negative()) { "prior_depth.special(±inf, -0.0, -1e30)" } else { "prior_depth.ordinary" });
     let prior_z: Vec<f32> = (0..npx)
         .map(|p| {
             if rng.chance(1, 4) {
@@ -133,14 +139,46 @@ fn masks_case(rng: &mut Rng, rep: &mut Report, idx: u64) {
             pz0
         })
         .collect();
-    let discard_m = 2 + rng.usize(4);
+    // m = 1: the shader returns no colour for every fragment
+    let discard_m = 1 + rng.usize(5);
     // split into one or two render() calls sharing one Context (stats add up)
     let split = if n > 1 && rng.chance(1, 2) { Some(1 + rng.usize(n - 1)) } else { None };
-    let calls: Vec<Vec<[usize; 3]>> = match split {
+    let mut calls: Vec<Vec<[usize; 3]>> = match split {
         None => vec![fl.sc.tris.clone()],
         Some(s) => vec![fl.sc.tris[..s].to_vec(), fl.sc.tris[s..].to_vec()],
     };
+    // a call with an empty triangle list still is a call
+    if rng.chance(1, 4) {
+        let at = rng.usize(calls.len() + 1);
+        calls.insert(at, vec![]);
+        rep.count("calls.with_an_empty_triangle_list");
+    }
     let pieces: Vec<(usize, bool)> = fl.sc.tris.iter().map(|t| clip_pieces(&fl, t)).collect();
+    // Face culling crossed with the masks: one cull mode per scene. A culled
+    // triangle contributes nothing at all (no fragments, no writes, not
+    // counted in prims.o); needs a well-defined winding for every triangle.
+    let facing: Vec<Option<bool>> = fl.sc.tris.iter().map(|t| orientation(&fl, t)).collect();
+    let cull = match rng.below(4) {
+        0 if facing.iter().all(|f| f.is_some()) && pieces.iter().all(|p| !p.1) => Some(FaceCull::Back),
+        1 if facing.iter().all(|f| f.is_some()) && pieces.iter().all(|p| !p.1) => Some(FaceCull::Front),
+        _ => None,
+    };
+    let culled: Vec<bool> = facing
+        .iter()
+        .map(|f| match (cull, f) {
+            (Some(FaceCull::Back), Some(back)) => *back,
+            (Some(FaceCull::Front), Some(back)) => !*back,
+            _ => false,
+        })
+        .collect();
+    rep.count(match cull {
+        None => "masks.face_cull_none",
+        Some(FaceCull::Back) => "masks.face_cull_back",
+        Some(FaceCull::Front) => "masks.face_cull_front",
+    });
+    if culled.iter().any(|c| *c) && culled.iter().any(|c| !*c) {
+        rep.count("masks.scenes_with_some_triangles_culled_and_some_drawn");
+    }
     let tests = [None, Some(Ordering::Less), Some(Ordering::Equal), Some(Ordering::Greater)];
     for tk in [Tk::FbOwned, Tk::ColOwned] {
         for &dt in &tests {
@@ -151,7 +189,7 @@ fn masks_case(rng: &mut Rng, rep: &mut Report, idx: u64) {
                 for dw in [true, false] {
                     for discard in [None, Some(discard_m)] {
                         rep.count("configurations_rendered");
-                        let ctx = Context { face_cull: None, depth_sort: None, depth_test: dt, color_write: cw, depth_write: dw, ..Context::default() };
+                        let ctx = Context { face_cull: cull, depth_sort: None, depth_test: dt, color_write: cw, depth_write: dw, ..Context::default() };
                         let out = match render_cfg(&fl, &calls, &ctx, discard, &prior_z, tk) {
                             Ok(o) => o,
                             Err(m) => {
@@ -161,14 +199,14 @@ fn masks_case(rng: &mut Rng, rep: &mut Report, idx: u64) {
                         };
                         // the model
                         let (mut exp_fi, mut exp_fo, mut exp_inv) = (0usize, 0usize, 0usize);
-                        let cfgs = format!("target={} depth_test={dt:?} color_write={cw} depth_write={dw} discard={discard:?} calls={}", tk.name(), calls.len());
+                        let cfgs = format!("target={} face_cull={cull:?} depth_test={dt:?} color_write={cw} depth_write={dw} discard={discard:?} calls={}", tk.name(), calls.len());
                         for p in 0..npx {
                             let (x, y) = (p % fl.w as usize, p / fl.w as usize);
                             let (mut c, mut z) = (COL_SENT, prior_z[p]);
                             let mut excluded = false;
-                            for l in &layers {
+                            for (li, l) in layers.iter().enumerate() {
                                 let lz = l.z[p];
-                                if lz.to_bits() == Z_MARK.to_bits() {
+                                if culled[li] || lz.to_bits() == Z_MARK.to_bits() {
                                     continue;
                                 }
                                 if l.multi[p] {
@@ -214,7 +252,7 @@ fn masks_case(rng: &mut Rng, rep: &mut Report, idx: u64) {
                         let exp_calls = calls.len() as f32;
                         let exp_pi: usize = calls.iter().map(|c| c.len()).sum();
                         let exp_vi = fl.sc.verts.len() * calls.len();
-                        let exp_po: usize = pieces.iter().map(|p| p.0).sum();
+                        let exp_po: usize = pieces.iter().zip(&culled).filter(|(_, c)| !**c).map(|(p, _)| p.0).sum();
                         let (calls_s, pi, po, vi, vo, fi, fo) = out.stats;
                         let mut bad = vec![];
                         if calls_s != exp_calls {
@@ -240,7 +278,9 @@ fn masks_case(rng: &mut Rng, rep: &mut Report, idx: u64) {
                                 bad.push(format!("frags.o={fo} expected {exp_fo} (fragments written)"));
                             }
                             if out.invocations != exp_inv {
-                                bad.push(format!("fragment shader invoked {} times, model says {exp_inv}", out.invocations));
+                                // when the shader runs relative to the depth test is
+                                // not something the property fixes: recorded, not judged
+                                rep.count("stats.shader_invocations_differ_from_model(not a property clause)");
                             }
                             rep.count("stats.fragment_counts_checked");
                         } else {
@@ -437,6 +477,11 @@ pub fn run(cfg: &Cfg, rep: &mut Report) {
     rep.run_stream(cfg, 1, "culling", cfg.n(100_000, 8_000_000), |rng, _, rep| cull_case(rng, rep));
     rep.run_stream(cfg, 2, "culling_stats", cfg.n(40_000, 3_000_000), |rng, _, rep| cull_stats_case(rng, rep));
     rep.floor("configurations_rendered", 50_000);
+    rep.floor("masks.face_cull_back", 800);
+    rep.floor("masks.face_cull_front", 800);
+    rep.floor("masks.scenes_with_some_triangles_culled_and_some_drawn", 500);
+    rep.floor("calls.with_an_empty_triangle_list", 800);
+    rep.floor("prior_depth.special(±inf, -0.0, -1e30)", 800);
     rep.floor("stats.fragment_counts_checked", 40_000);
     rep.floor("culling.visible_triangles", 10_000);
     rep.floor("culling.mirrored_viewport(winding reversed on screen)", 2_000);
